@@ -15,6 +15,7 @@ from vf import gen as G, oracle as O, props as P, snapshot as S
 from vf.checks.common import Case, call, exc_text
 
 ID = "C18"
+TECHNIQUE = "runtime monitoring: reference-model monitor (exact de Casteljau / subtended angle) on segment calculus, bignum resource guard"
 LEVEL = "exploration"
 RULE = ("random planar Bezier segments of degree 1..6 (int / Fraction / float control points, generic, monotone 'regular' "
         "ones, nearly straight and looping ones) x parameters (rational and float, ends included) x query points (on the "
